@@ -35,6 +35,11 @@ class PS2(xo.Struct):
     %(extra_dyn)s
 
 
+class PS5(xo.Struct):
+    n = xo.Int64
+    x = xo.Float64[:]
+
+
 class PS3(xo.Struct):
     inner = PS2
     r = xo.Ref[PS1]
@@ -196,8 +201,11 @@ def run_all(tier, seed):
             try:
                 for _ in range(r.randrange(2, 7)):
                     b = r.choice(bufs)
-                    k = r.choice(["PS1", "PS2", "PS3", "PS4", "arr", "arrd", "PH1", "PH2"])
-                    if k == "PS1":
+                    k = r.choice(["PS1", "PS2", "PS3", "PS4", "PS5", "arr", "arrd", "PH1", "PH2"])
+                    if k == "PS5":
+                        # exactly ONE dynamically sized field (no stored field offsets at all)
+                        objs.append(M.PS5(n=r.randint(-9, 9), x=[float(r.randint(0, 9)) for _ in range(r.randrange(0, 4))], _buffer=b))
+                    elif k == "PS1":
                         objs.append(M.PS1(a=r.randint(-9, 9), b=1.5, _buffer=b))
                     elif k == "PS2":
                         objs.append(M.PS2(_buffer=b, **ps2_args(r, extra)))
@@ -360,6 +368,19 @@ def run_all(tier, seed):
                     tags["writes"] += 1
                 except Exception as ex:
                     fail("unusable:" + type(ex).__name__, f"writing an unpickled {kk} raises {type(ex).__name__}: {str(ex)[:160]}", c1)
+            # ---- "fully usable": an unpickled struct / array is a value like any other - the source of a copy (into other buffers)
+            for o, kk in zip(out, kinds):
+                if hasattr(o, "_xobject") or kk not in ("PS1", "PS2", "PS3", "PS5", "ArrNFloat64", "ArrNPS2"):
+                    continue
+                try:
+                    want = value(o)
+                    for dest in (xo.ContextCpu().new_buffer(64), xo.ContextCpu().new_buffer(4096)):   # (not the unpickled buffer: its allocator state is compared below)
+                        cp = type(o)(o, _buffer=dest)
+                        if value(cp) != want:
+                            fail("unusable:copy-differs", f"a copy constructed from an unpickled {kk} reads {str(value(cp))[:120]}, the unpickled object {str(want)[:120]}", c1)
+                    tags["copies-of-unpickled"] += 1
+                except Exception as ex:
+                    fail("unusable:copy:" + type(ex).__name__, f"copy-constructing from an unpickled {kk} raises {type(ex).__name__}: {str(ex)[:160]}", c1)
             # ---- the unpickled buffers are working allocators
             for b_old, b_new in zip(ob, nb):
                 try:
